@@ -119,6 +119,9 @@ def run(ctx):
 
     # ------------------------------------------------------------------ R18.5
     r = ctx.rule("R18.5", "LAST_ERROR is touched only by save_last_error / lol_html_take_last_error, through the non-panicking try_with", "E-MIR", floor=2)
+    # the thread-local slot carries nothing from an earlier, unrelated instance: a new error always replaces it
+    from .c17 import clause_last_error_overwritten
+    clause_last_error_overwritten(r, capi)
     users = {}
     for f in capi.fns:
         for bi, t in f.calls(r"LocalKey"):
